@@ -26,45 +26,62 @@ SHARDS = {'quick': 16, 'thorough': 16}
 def make_judges(ctx):
     mon = ctx.mon
 
-    def floordiv_into(ev, ai):
-        """x // y written to a destination (out= / out_like=) that can hold floor(x/y): the stored value is floor(x/y) exactly"""
+    def div_into(ev, ai):
+        """x / y, x // y, x % y written to a destination (out= / out_like=): // and % are exact whenever the destination can hold the result; / is exact when
+        the quotient is representable there and one of its two representable neighbours otherwise (no overflow involved)"""
         x, y = ai.x, ai.y
+        op = ai.op
         t = ai.out_pre if ai.out is not None else ai.out_like_pre
         if t is None or not (A.usable(x) and A.usable(y) and A.usable(t)) or any(k == 0 for k in y.codes) or x.n_word > 63 or y.n_word > 63 or not (1 <= t.n_word <= 63):
-            ctx.skip('div:floordiv into a destination outside the model')
+            ctx.skip('div:%s into a destination outside the model' % op)
             return
         if not t.signed and (x.signed or y.signed):
             ctx.skip('div:signed result into unsigned target is rejected')
             return
-        ex = A.exact_op('floordiv', A.fr_array(x), A.fr_array(y))
+        va, vb = A.fr_array(x), A.fr_array(y)
+        ex = (va / vb) if op == 'truediv' else A.exact_op(op, va, vb)
         exf, shape = A.flat(ex)
         lo, hi = R.code_range(t.signed, t.n_word)
         sc = F(2) ** t.n_frac
-        if any((e * sc).denominator != 1 or not (lo <= e * sc <= hi) for e in exf):
-            ctx.skip('div:floordiv into a destination that cannot hold the quotient')
+        if op == 'truediv':
+            if any(not (lo <= (e * sc).numerator // (e * sc).denominator and -((-(e * sc).numerator) // (e * sc).denominator) <= hi) for e in exf):
+                ctx.skip('div:truediv into a destination whose range does not hold the quotient')
+                return
+        elif any((e * sc).denominator != 1 or not (lo <= e * sc <= hi) for e in exf):
+            ctx.skip('div:%s into a destination that cannot hold the result' % op)
             return
         if ev.exc is not None:
-            ctx.violation('raises', '%s floordiv %s into %s raised %s: %s' % (R.dtype_fxp(*x.fmt()), R.dtype_fxp(*y.fmt()), R.dtype_fxp(*t.fmt()), type(ev.exc).__name__, str(ev.exc)[:160]), ev)
+            ctx.violation('raises', '%s %s %s into %s raised %s: %s' % (R.dtype_fxp(*x.fmt()), op, R.dtype_fxp(*y.fmt()), R.dtype_fxp(*t.fmt()), type(ev.exc).__name__, str(ev.exc)[:160]), ev)
             return
         res = ai.res
         if res is None or res.fmt() != t.fmt():
-            ctx.violation('format', 'floordiv into %s returned %s' % (R.dtype_fxp(*t.fmt()), res and R.dtype_fxp(*res.fmt())), ev)
+            ctx.violation('format', '%s into %s returned %s' % (op, R.dtype_fxp(*t.fmt()), res and R.dtype_fxp(*res.fmt())), ev)
             return
-        want = [int(e * sc) for e in exf]
-        if res.codes != want:
-            j = next(j for j, (a_, b_) in enumerate(zip(res.codes, want)) if a_ != b_)
-            ctx.violation('wrong_value', '%s floordiv %s into %s: element %d: floor of the quotient is %s, library value %s' % (
-                R.dtype_fxp(*x.fmt()), R.dtype_fxp(*y.fmt()), R.dtype_fxp(*t.fmt()), j, exf[j], F(res.codes[j]) / sc if isinstance(res.codes[j], int) else res.codes[j]), ev)
-        ctx.judged(('floordiv-into', 's' if t.signed else 'u', G.word_class(t.n_word), t.n_frac > 0, max(abs(w_) for w_ in want).bit_length() > 53), True, None, elements=len(want))
-        if t.n_frac > 0:
+        bad = None
+        for j_, (e, k) in enumerate(zip(exf, res.codes)):
+            s_ = e * sc
+            fl_ = s_.numerator // s_.denominator
+            ok = (k == fl_) if s_.denominator == 1 else (op == 'truediv' and k in (fl_, fl_ + 1))
+            if not ok:
+                bad = j_
+                break
+        if bad is not None or len(res.codes) != len(exf):
+            j_ = bad or 0
+            ctx.violation('wrong_value', '%s %s %s into %s [%s]: element %d: exact result %s (scaled %s), library code %r' % (
+                R.dtype_fxp(*x.fmt()), op, R.dtype_fxp(*y.fmt()), R.dtype_fxp(*t.fmt()), ai.method, j_, exf[j_], exf[j_] * sc, res.codes[j_] if j_ < len(res.codes) else None), ev)
+        wide = max(x.n_word, y.n_word) > 53
+        ctx.judged((op + '-into', 's' if t.signed else 'u', G.word_class(t.n_word), t.n_frac > 0, wide, t.n_frac < max(x.n_frac, y.n_frac)), True, None, elements=len(exf))
+        if t.n_frac > 0 and op == 'floordiv':
             ctx.floor_hit(('floordiv-into-fraction-bits',))
+        if wide and t.n_frac < max(x.n_frac, y.n_frac):
+            ctx.floor_hit(('wide-operand-into-coarser-target', op))
 
     def div_judge(ev):
         ai = A.decode_arith(ev, mon)
         if ai is None or ai.op not in ('truediv', 'floordiv', 'mod'):
             return
-        if ai.op == 'floordiv' and (ai.out is not None or ai.out_like is not None) and ai.x is not None and ai.y is not None and ai.method == 'raw':
-            return floordiv_into(ev, ai)
+        if (ai.out is not None or ai.out_like is not None) and ai.x is not None and ai.y is not None and ai.method == 'raw':
+            return div_into(ev, ai)
         if ai.sizing != 'optimal' or ai.out is not None or ai.out_like is not None or ai.x is None or ai.y is None:
             ctx.skip('div:imposed format or constant')
             return
@@ -142,7 +159,8 @@ def make_judges(ctx):
 
 
 def floors(tier):
-    return [('op', op, sg, m) for op in ('truediv', 'floordiv', 'mod') for sg in ('ss', 'su', 'us', 'uu') for m in ('raw', 'repr')] + [('special', 'multiple'), ('special', 'widealign'), ('floordiv-into-fraction-bits',), ('wide-operand', 'floordiv')]
+    return [('op', op, sg, m) for op in ('truediv', 'floordiv', 'mod') for sg in ('ss', 'su', 'us', 'uu') for m in ('raw', 'repr')] + [('special', 'multiple'), ('special', 'widealign'), ('floordiv-into-fraction-bits',), ('wide-operand', 'floordiv')] + \
+           [('wide-operand-into-coarser-target', op) for op in ('truediv', 'floordiv', 'mod')]
 
 
 def fmts(wmax):
@@ -313,6 +331,31 @@ def run_case(case, ctx):
                     _try(lambda: fm.floordiv(x, y, out_like=Fxp(None, True, wt, ft)))
                     _try(lambda: fm.floordiv(x, y, out=Fxp(np.zeros(np.shape(cx)) if np.ndim(cx) else None, True, wt, ft)))
                     _try(lambda: np.floor_divide(x, y, out=Fxp(np.zeros(np.shape(cx)) if np.ndim(cx) else None, True, wt, ft)))
+    # all three operators into destinations with FEWER fraction bits than the operands (the kernels must not scale the codes down with a float factor:
+    # every bit of a 54..62 bits operand counts), by function, method keyword, NumPy and configured output
+    if method == 'raw' and special in ('wideop', 'widealign'):
+        fmin = min(fx, fy)
+        for ft in sorted({0, max(0, fmin - 1), max(0, fmin // 2)}):
+            for st in ((True,) if (sx or sy) else (True, False)):
+                wt = rng.choice([53, 52, rng.randint(40, 52)])
+                mk = lambda: Fxp(np.zeros(np.shape(cx)) if np.ndim(cx) else None, st, wt, ft, rounding=r)
+                _try(lambda: fm.truediv(x, y, out=mk()))
+                _try(lambda: fm.truediv(x, y, out_like=mk()))
+                _try(lambda: fm.mod(x, y, out=mk()))
+                _try(lambda: fm.mod(x, y, out_like=mk()))
+                _try(lambda: fm.floordiv(x, y, out_like=mk()))
+                _try(lambda: np.mod(x, y, out=mk()))
+                _try(lambda: np.divide(x, y, out=mk()))
+        # exact multiples and one LSB next to them: the quotient (remainder) is representable in a coarse destination
+        dv = vy()
+        yy = Fxp(dv, sy, wy, fy, raw=True)
+        kq = rng.randint(2 ** 50, 2 ** 52)
+        for cxx in (kq * abs(dv) * 2 + 1, kq * abs(dv) * 2, kq * abs(dv) * 2 - 1):
+            xx = Fxp(cxx, sx or dv < 0, 62, 1 + fy, raw=True)          # value = cxx / 2^(1+fy); divisor value dv / 2^fy: quotient cxx / (2 dv)
+            for tgt in (lambda: Fxp(None, True, 58, 0, rounding=r), lambda: Fxp(None, True, 60, 1, rounding=r)):
+                _try(lambda: fm.truediv(xx, yy, out=tgt()))
+                _try(lambda: fm.mod(xx, yy, out_like=tgt()))
+                _try(lambda: fm.floordiv(xx, yy, out=tgt()))
     # the identity (x//y)*y + x%y == x through the library itself
     if fl is not None and md is not None and max(wx, wy) <= 53:      # (the comparison itself goes through doubles beyond that)
         try:
